@@ -24,6 +24,7 @@ func init() {
 			ruleResumeRestoresConnected(r, "R6", "Downstream")
 			ruleC04R8(r)
 			ruleC04R9(r)
+			ruleOptionSetters(r, "R10", "downstream_options.go")
 			r.borrow("C03", func() { ruleC03R2(r) }) // one alias generator for pre-registered and new aliases
 			ruleLoopDrivers(r, "R7", "the ack flusher stays periodic: in package iscp every receive inside a loop from a time source is a Ticker, a time.After, or a Timer that is re-armed inside the loop when its branch continues the loop", func(fn *ssa.Function) bool { return fnPkgPath(fn) == modPath+"/iscp" }, 1)
 		},
